@@ -9,10 +9,10 @@ from . import check_coord as CC
 
 MODULES = {
     "C01": ["NSG.Properties.C01", "NSG.Properties.C01Barrier", "NSG.Properties.C01Sched", "NSG.Properties.GenC01", "NSG.Properties.GenAtomic"],
-    "C04": ["NSG.Properties.C04", "NSG.Properties.C04History"],
+    "C04": ["NSG.Properties.C04", "NSG.Properties.C04History", "NSG.Properties.C04Budget"],
     "C05": ["NSG.Properties.C05"],
     "C06": ["NSG.Properties.C06", "NSG.Properties.C01Barrier", "NSG.Properties.C06Start", "NSG.Properties.GenAtomic"],
-    "C07": ["NSG.Properties.C07", "NSG.Properties.C01Barrier", "NSG.Properties.GenAtomic"],
+    "C07": ["NSG.Properties.C07", "NSG.Properties.C01Barrier", "NSG.Properties.GenAtomic", "NSG.Properties.C04Budget"],
     "C09": ["NSG.Properties.C09", "NSG.Properties.GenC09"],
     "C10": ["NSG.Properties.C10", "NSG.Properties.GenC10", "NSG.Properties.GenAtomic", "NSG.Properties.SystemMono"],
     "C16": ["NSG.Properties.C16"],
